@@ -82,6 +82,10 @@ pub struct Case {
     pub atts: Vec<Att>,
     /// 0 recv, 1 try_recv, 2 set select + to(), 3 set select + drop undecoded, 4 router + drop undecoded
     pub via: u8,
+    /// descriptor number 0 is free when the message is received (a process without stdin): the
+    /// first attachment is installed as descriptor 0
+    #[serde(default)]
+    pub fd0: bool,
 }
 
 // ---- Raw: arbitrary bytes + attachments through the public API ---------------------------------
@@ -504,14 +508,14 @@ impl Prop for C16 {
             5 => (0u8..NTYPES, any::<u64>(), proptest::collection::vec(mutation, 0..3)).prop_map(|(base, seed, muts)| Gen::Valid { base, seed, muts }),
         ];
         let att = prop_oneof![Just(Att::Tx), Just(Att::Rx), Just(Att::Shm)];
-        (0u8..NTYPES, gen, proptest::collection::vec(att, 0..=8), prop_oneof![4 => 0u8..3, 1 => 3u8..5], any::<bool>())
-            .prop_map(|(ty, gen, atts, via, same)| {
+        (0u8..NTYPES, gen, proptest::collection::vec(att, 0..=8), prop_oneof![4 => 0u8..3, 1 => 3u8..5], any::<bool>(), prop_oneof![4 => Just(false), 1 => Just(true)])
+            .prop_map(|(ty, gen, atts, via, same, fd0)| {
                 // mostly decode as the type the bytes were made for (mutations matter most there)
                 let ty = match (&gen, same) {
                     (Gen::Valid { base, .. }, true) => *base,
                     _ => ty,
                 };
-                Case { ty, gen, atts, via }
+                Case { ty, gen, atts, via, fd0 }
             })
             .boxed()
     }
@@ -524,7 +528,11 @@ impl Prop for C16 {
             Ok(r) => r,
             Err(_) => fail!("decode:panicked-outside-guard", "panic outside the guarded decode: {:?}", crate::take_panics()),
         };
+        let fd0_end = if matches!(&r, Err(f) if f.poisoned) { Ok(()) } else { fdsnap::fd0::restore() };
         let out = r?;
+        if let Err(what) = fd0_end {
+            return Err(Failure::new("decode:descriptors-leaked", format!("descriptor number 0 was free when the message was received; after the case number 0 is still occupied by {}", what)).poisoned());
+        }
         let fds1 = fdsnap::fd_map();
         if fds1.len() != fds0.len() {
             let extra: Vec<String> = fds1.iter().filter(|(k, _)| !fds0.contains_key(k)).map(|(k, v)| format!("{}->{}", k, v)).collect();
@@ -569,6 +577,9 @@ pub fn run_case(case: &Case) -> Result<Outcome, Failure> {
     let sent = raw_tx.send(Raw { bytes, atts });
     ensure!(sent.is_ok(), "decode:raw-send-failed", "the harness could not put the raw message on the wire: {:?}", sent.map_err(|e| e.to_string()));
     drop(raw_tx);
+    if case.fd0 {
+        fdsnap::fd0::free();
+    }
 
     let via = case.via % 5;
     let outcome = if via == 4 {
